@@ -484,10 +484,20 @@ impl FileCombiner {
             debug_assert!(self.buf.is_empty());
             return Ok(());
         }
-        let hash = self
+        let block_data = take(&mut self.buf).freeze();
+        let hash = match self
             .block_dir
-            .store_or_deduplicate(take(&mut self.buf).freeze(), &mut self.stats, monitor)
-            .await?;
+            .store_or_deduplicate(block_data.clone(), &mut self.stats, monitor)
+            .await
+        {
+            Ok(hash) => hash,
+            Err(err) => {
+                // The queued files still describe offsets into this data: put it back, so
+                // that they stay consistent and a later flush can try to store it again.
+                self.buf = BytesMut::from(&block_data[..]);
+                return Err(err);
+            }
+        };
         self.stats.combined_blocks += 1;
         self.finished
             .extend(self.queue.drain(..).map(|qf| IndexEntry {
